@@ -11,8 +11,8 @@
         off@k           the run ended by leaving the instruction stream at step k
         untyped@k       (only when D is ok) the configuration before step k differs from D
       followed, for completed runs, by  :final=<regs>.<values>.<frames> *)
-let rec nat_of_int (i : int) : nat = if i <= 0 then O else S (nat_of_int (i - 1))
-let rec int_of_nat (n : nat) : int = match n with O -> 0 | S m -> 1 + int_of_nat m
+let nat_of_int (i : int) : nat = let rec go k acc = if k <= 0 then acc else go (k - 1) (S acc) in go i O
+let int_of_nat (n : nat) : int = let rec go n acc = match n with O -> acc | S m -> go m (acc + 1) in go n 0
 
 let tt_table : token_type array = Array.of_list all_token_type
 
